@@ -322,9 +322,27 @@ def show(v):
         return f"<{type(e).__name__}>"
 
 
-def run_case(ctx, real, drv, spec, do_file=False, label="universe"):
+def kinds(spec):
+    """the value with every atom replaced by its kind: a character must not come back as a string, etc."""
+    k, x = spec
+    if k == "L":
+        return ["L", [kinds(e) for e in x]]
+    if k == "D":
+        return ["D", [[kinds(kk), kinds(vv)] for kk, vv in x]]
+    return k
+
+
+def same_kinds(c0, v1):
+    try:
+        return kinds(canon(v1)) == kinds(c0)
+    except Exception:
+        return False
+
+
+def run_case(ctx, real, drv, spec, do_file=False, label="universe", case=None):
     be = real.be
-    case = dict(kind="value", value=spec)
+    if case is None:
+        case = dict(kind="value", value=spec)
     cls = case_class(spec)
     try:
         v = build(spec, be)
@@ -358,6 +376,10 @@ def run_case(ctx, real, drv, spec, do_file=False, label="universe"):
             ok = False
             ctx.oracle_fail(f"rs:{cls}", case, f"writes {text!r} again", f"read back as {show(v1)}, written {t1!r}",
                             "the value read back does not write identically")
+        elif not same_kinds(c0, v1):
+            ok = False
+            ctx.oracle_fail(f"rs:{cls}", case, f"the same kinds as {json.dumps(c0)}", f"text {text!r} read back as {show(v1)}",
+                            "the value read back has another kind (character / string / symbol / integer / real / list / dictionary)")
     if nonfinite:
         ctx.extra.setdefault("nonfinite_reproduced", {})[text] = show(v1) if v1 is not None else "raises"
         ctx.bump("outside-WFData:nonfinite")
@@ -391,6 +413,9 @@ def run_case(ctx, real, drv, spec, do_file=False, label="universe"):
                                 ".r of what .w wrote does not match the original")
             elif real.write(r) != text:
                 ctx.oracle_fail(f"r:{cls}", case, f"writes {text!r} again", f"{show(r)} written {real.write(r)!r}")
+            elif not same_kinds(c0, r):
+                ctx.oracle_fail(f"r:{cls}", case, f"the same kinds as {json.dumps(c0)}", f"text {text!r} read back by .r as {show(r)}",
+                                ".r of what .w wrote has another kind")
         except Exception as e:
             ctx.oracle_fail(f"r:{cls}", case, f"reads back {json.dumps(c0)}", f"{type(e).__name__}: {e}", ".w/.r raises")
         ctx.bump("path:.w/.r")
@@ -505,10 +530,81 @@ def universe(ctx):
         yield rand_value(rng, 3), rng.random() < 0.05
 
 
+# --------------------------------------------------------------------------- histories
+
+def history(ctx):
+    """values written one after the other in ONE interpreter/process, before anything else of the run:
+    what is written must not depend on what was written before.  A character and the string (and the
+    symbol) with the same text, bare and inside lists / dictionaries, in both orders; every content is
+    used for the first time here, so each order really is the first contact of the process with it."""
+    rng = ctx.rng
+    pool = list("abdfghijklmnopqrstuvwxyzABCDEFGHIJKLMNOPQRSTUVWXYZ0123456789") + ['"', ' ', '\n', '[', ']', ':', ';', '-', '.', '{', '}']
+    rng.shuffle(pool)
+    fixed = ['"', ' ', '[', 'a', '0', ':']
+    pool = fixed + [c for c in pool if c not in fixed]
+    it = iter(pool)
+    h = []
+
+    def nxt():
+        return next(it)
+
+    def wrap(mk, c, how):
+        a = mk(c)
+        if how == 0:
+            return a
+        if how == 1:
+            return L([a])
+        if how == 2:
+            return L([a, I(1), a])
+        if how == 3:
+            return D([[a, I(1)]])
+        if how == 4:
+            return D([[I(1), a]])
+        return L([L([a]), D([[S("k" + c), L([a])]])])
+
+    forms = [C, S]
+    for how1 in range(6):
+        for how2 in range(6):
+            if how1 > 2 and how2 > 2 and rng.random() < 0.5:
+                continue
+            for first in (0, 1):
+                try:
+                    c = nxt()
+                except StopIteration:
+                    break
+                h.append(wrap(forms[first], c, how1))
+                h.append(wrap(forms[1 - first], c, how2))
+                h.append(wrap(forms[first], c, how2))
+    # symbol / string / character with equal text
+    for c in "ce":
+        for order in ([Y, S, C], [S, C, Y], [C, Y, S]):
+            for mk in order:
+                h.append(L([mk(c), mk(c)]))
+        h.append(L([Y(c), S(c), C(c)]))
+        h.append(D([[Y(c), S(c)], [S(c), C(c)]]))
+    # numbers that print alike
+    h += [I(1), R(1.0), L([I(1)]), L([R(1.0)]), I(0), R(0.0), R(-0.0), L([R(-0.0)]), L([R(0.0)]), L([I(0)])]
+    return h
+
+
+def run_history(ctx, real, drv, h):
+    for i, spec in enumerate(h):
+        case = dict(kind="history", values=h[:i + 1],
+                    note="write, read back and compare every value of the list in this order in one fresh process")
+        n = len(ctx.oracle_failures) + len(ctx.known_hits)
+        run_case(ctx, real, drv, spec, do_file=(i % 3 == 0), label="history", case=case)
+        ctx.bump("path:history")
+        if len(ctx.oracle_failures) + len(ctx.known_hits) > n:
+            return len(ctx.oracle_failures) > 0
+    return False
+
+
 # --------------------------------------------------------------------------- entry
 
 def _common(ctx):
-    ctx.rule = ("closed universe: every atom (extreme/negative integers, reals incl. exponent forms, characters, "
+    ctx.rule = ("first a history in the fresh process (a character, the string and the symbol with the same text, bare and in "
+                "lists/dictionaries, in both orders - what is written must not depend on what was written before; kinds "
+                "compared exactly); then the closed universe: every atom (extreme/negative integers, reals incl. exponent forms, characters, "
                 "symbols, strings over {quote, blank, newline, [, ], :, 0, c, letters} up to length 3 (4 in the thorough tier)), every atom and "
                 "sampled/all pairs in a list, nestings to depth 3 over a small pool (depth <=2 exhaustive in the "
                 "thorough tier), dictionaries over every key kind, plus seeded random strings and nestings; each "
@@ -529,6 +625,10 @@ def run(ctx):
     drv = Driver("c11") if getattr(ctx, "driver_ok", True) else None
     seen = set()
     try:
+        if run_history(ctx, real, drv, history(ctx)):
+            # what is written depends on what was written before: single values of the universe could not
+            # be replayed on their own, the history is the failing input
+            return
         cdir = common.CORPUS / "C11"
         if cdir.exists():
             for p in sorted(cdir.glob("*.json")):
@@ -553,7 +653,10 @@ def replay(ctx, case):
     drv = Driver("c11") if getattr(ctx, "driver_ok", True) else None
     c = case.get("case", case)
     try:
-        run_case(ctx, real, drv, c["value"], do_file=True, label="replay")
+        if c.get("kind") == "history":
+            run_history(ctx, real, drv, c["values"])
+        else:
+            run_case(ctx, real, drv, c["value"], do_file=True, label="replay")
     finally:
         if drv:
             drv.close()
